@@ -209,6 +209,13 @@ def finding_key(obs, clause):
     # same split (Buffer!FlatCase, decided in TLA+): zero frequency buffer on a shape reaching above 2.25 MHz
     if clause == "BoundsGrowFlatStrict" and 0 in (obs["in"]["b1"][1], obs["in"]["b2"][1]):
         return "BoundsGrow/zero-freq-buffer-above-2.25MHz/deficit<=1-cos(pi/8)"
+    # buffer_geometry raised KeyError (GEOS returned NaN coordinates for the 1e9-scaled line, the clipped result is an empty
+    # GeometryCollection): only for line strings in a call with freq_buffer = 0; any other failure of ValidGeometry stays a violation
+    if clause == "ValidGeometry" and obs["in"]["g"]["type"] in ("LineString", "MultiLineString"):
+        runs = [(obs["in"]["b1"], obs["out"].get("r1", {})), (obs["in"]["b2"], obs["out"].get("r2", {}))]
+        bad = [(b, r) for b, r in runs if min(b) >= 0 and r.get("raised") != ""]
+        if bad and all(r.get("raised") == "KeyError" and b[1] == 0 for b, r in bad):
+            return "ValidGeometry/KeyError-line-string-zero-freq-buffer"
     return clause
 
 
